@@ -685,6 +685,9 @@ class Messenger(Connection):
             self._logger.debug('RX remain %d octets', len(self.__rx_buf))
 
             self.recv_message(pkt)
+            if self.get_app_socket() is None:
+                # closed while handling that message, the rest is not for us
+                break
 
     def recv_message(self, pkt):
         ''' Handle a received full message (or contact header).
